@@ -273,7 +273,7 @@ pub fn generate(seed: u64) -> DetCase {
         let files = (0..n)
             .map(|_| (*rng.pick(&[0usize, 1, 2, 3, 4, 5, 6, 7, 8, 15]), crate::session::gen_snippet(&mut rng)))
             .collect();
-        Project::Pool { files, schema: *rng.pick(&[0usize, 0, 0, 1, 1, 2, 3]), ext: *rng.pick(&[0usize, 0, 1, 2]) }
+        Project::Pool { files, schema: *rng.pick(&[0usize, 0, 0, 1, 1, 2, 3]), ext: *rng.pick(&[0usize, 0, 1, 2, 3]) }
     };
     let k = rng.range(4, 6);
     let mut steps = vec![DetConfig { hash_seed: 0, perm_seed: 0, preintern_seed: 0 }];
